@@ -77,16 +77,37 @@ func c12Roach(r *Rng, idx int, long bool, o *Out) {
 			raw[ch][j] = uint16(x)
 		}
 	}
+	wide := !long && r.Chance(35) // 4-byte words: the device keeps the upper half of each
+	base := uint64(r.Pick(1000, 0, 1<<33, 123456789))
+	type sentPkt struct {
+		bytes []byte
+		n     int
+	}
+	var sentPkts []sentPkt
 	packet := func(f0, n int) []byte {
-		b := make([]byte, 16+2*nchan*n)
-		b[1] = 0
+		w := 2
+		if wide {
+			w = 4
+		}
+		b := make([]byte, 16+w*nchan*n)
+		b[0] = byte(r.Intn(256))
+		b[1] = byte(r.Intn(256))
 		binary.BigEndian.PutUint16(b[2:], uint16(nchan))
 		binary.BigEndian.PutUint16(b[4:], uint16(n))
-		binary.BigEndian.PutUint16(b[6:], 1) // 2-byte words
-		binary.BigEndian.PutUint64(b[8:], uint64(1000+f0))
+		flags := uint16(r.Intn(1<<14))<<2 | 1 // only the two low bits matter
+		if wide {
+			flags = flags&^3 | 2
+		}
+		binary.BigEndian.PutUint16(b[6:], flags)
+		binary.BigEndian.PutUint64(b[8:], base+uint64(f0))
 		for j := 0; j < n; j++ {
 			for ch := 0; ch < nchan; ch++ {
-				binary.BigEndian.PutUint16(b[16+2*(ch+nchan*j):], raw[ch][f0+j])
+				if wide {
+					binary.BigEndian.PutUint16(b[16+4*(ch+nchan*j):], raw[ch][f0+j])
+					binary.BigEndian.PutUint16(b[16+4*(ch+nchan*j)+2:], uint16(r.U64()))
+				} else {
+					binary.BigEndian.PutUint16(b[16+2*(ch+nchan*j):], raw[ch][f0+j])
+				}
 			}
 		}
 		return b
@@ -109,7 +130,9 @@ func c12Roach(r *Rng, idx int, long bool, o *Out) {
 			if sent+n > upto {
 				n = upto - sent
 			}
-			conn.Write(packet(sent, n))
+			pb := packet(sent, n)
+			conn.Write(pb)
+			sentPkts = append(sentPkts, sentPkt{pb, n})
 			sent += n
 			if long && (sent/n)%8 == 0 {
 				time.Sleep(200 * time.Microsecond) // do not overrun the socket buffer
@@ -118,13 +141,15 @@ func c12Roach(r *Rng, idx int, long bool, o *Out) {
 		time.Sleep(170 * time.Millisecond) // longer than the 100 ms bundling time: the device closes a block
 	}
 	var blocks [][][]dastard.RawType
+	var firsts []int64
 	got := 0
 	for got < total {
-		d, _, err := v.NextBlock(3 * time.Second)
+		d, f, err := v.NextBlock(3 * time.Second)
 		if err != nil {
 			break
 		}
 		blocks = append(blocks, d)
+		firsts = append(firsts, f)
 		if len(d) > 0 {
 			got += len(d[0])
 		}
@@ -145,6 +170,31 @@ func c12Roach(r *Rng, idx int, long bool, o *Out) {
 			}
 			pos += n
 			out.WriteString(" " + ints(b[ch]))
+		}
+		o.Case("%s OUT %s", in.String(), out.String())
+	}
+	// the same run at the level of the device: the datagrams of each bundle and the blocks made from them
+	// (first frame index, every channel's samples), judged by Model/C12Roach.lean
+	if !long {
+		var in, out strings.Builder
+		fmt.Fprintf(&in, "rdev biasopt %d sign %d nchan %d bundles %d", b2i(opts.Bias), opts.PulseSign, nchan, len(blocks))
+		fmt.Fprintf(&out, "%d", len(blocks))
+		k := 0
+		for bi, b := range blocks {
+			n := 0
+			if len(b) > 0 {
+				n = len(b[0])
+			}
+			var hx []string
+			for cnt := 0; cnt < n && k < len(sentPkts); k++ {
+				hx = append(hx, hexs(sentPkts[k].bytes))
+				cnt += sentPkts[k].n
+			}
+			fmt.Fprintf(&in, " %d %s", len(hx), strings.Join(hx, " "))
+			fmt.Fprintf(&out, " %d %d", firsts[bi], len(b))
+			for _, ch := range b {
+				out.WriteString(" " + ints(ch))
+			}
 		}
 		o.Case("%s OUT %s", in.String(), out.String())
 	}
